@@ -765,6 +765,17 @@ class Evaluator:
             else:
                 p.ret = Num("usize", p_var("len(" + self.describe(recv_node) + ")"))
             return [p]
+        if m in ("unwrap_or", "unwrap_or_default") and isinstance(recv, Opt):
+            dflt = args[0] if args else Num("?", p_const(0))
+            if recv.some is not None and not recv.none:
+                p.ret = recv.some
+            elif recv.some is None:
+                p.ret = dflt
+            elif isinstance(recv.some, Str) and isinstance(dflt, Str):
+                p.ret = Str(recv.some.t | dflt.t)
+            else:
+                p.ret = Top("unwrap_or of an option that may be either")
+            return [p]
         if m == "unwrap":
             p.effects.append(Effect("unwrap", line, on=self.describe(recv_node), val=recv))
             if isinstance(recv, Res):
